@@ -56,7 +56,7 @@ type rtState struct {
 
 var rtRepoReal = map[string]string{
 	"full": "c15/full", "empty": "c15/empty", "reserved": "c15/blobs", "long": "c15/" + strings.Repeat("abcdefghij", 30),
-	"upper": "C15/Full", "leaddash": "-c15/x", "dotdot": "c15/a..b", "dblslash": "c15/a___b", "colon": "c15/a:b",
+	"upper": "C15/Priv", "leaddash": "-c15/x", "dotdot": "c15/a..b", "dblslash": "c15/a___b", "colon": "c15/a:b",
 }
 
 func (st *rtState) close() {
@@ -100,6 +100,15 @@ func newRtState(store string, seed int64) (*rtState, error) {
 		if r := st.ex.Do(op); r.Status/100 != 2 {
 			return nil, fmt.Errorf("routing prelude failed: %s -> %d", op.Op, r.Status)
 		}
+	}
+	if root != "" {
+		// out of band: a directory whose name is outside the repository grammar but that is a layout holding blob b1
+		// (a mount from it must not succeed)
+		priv := filepath.Join(root, rtRepoReal["upper"])
+		_ = os.MkdirAll(filepath.Join(priv, "blobs", "sha256"), 0o755)
+		_ = os.WriteFile(filepath.Join(priv, "oci-layout"), []byte(`{"imageLayoutVersion":"1.0.0"}`), 0o644)
+		_ = os.WriteFile(filepath.Join(priv, "index.json"), []byte(`{"schemaVersion":2,"manifests":[]}`), 0o644)
+		_ = os.WriteFile(filepath.Join(priv, "blobs", "sha256", strings.TrimPrefix(cat.SymDig[sym("sha256", "b1")], "sha256:")), cat.C["b1"].Bytes, 0o644)
 	}
 	if store == "dirro" {
 		_ = st.srv.Close()
@@ -449,7 +458,7 @@ func (st *rtState) fingerprint() string {
 	repos, _ := st.srv.S.VerifRepos()
 	n := 0
 	for _, r := range repos {
-		if !strings.HasPrefix(r, "c15/") || strings.Contains(r, "..") {
+		if (!strings.HasPrefix(r, "c15/") && r != rtRepoReal["upper"]) || strings.Contains(r, "..") {
 			n++
 		}
 	}
